@@ -7,6 +7,7 @@ interleave 2-3 tasks through one ASGI app on the SimLoop. Oracle: every
 concurrent response and observation record equals the solo run on a fresh,
 identical app."""
 import asyncio
+import http
 import io
 import json
 
@@ -54,6 +55,9 @@ TEMPLATES = [
     ('/e/{code:int}', 'error'), ('/ea/{code:int}', 'errorA'), ('/eb/{code:int}', 'errorB'), ('/m/{k}', 'media'), ('/items/{id}/detail/{d}', 'echo'),
     ('/v{ver:int}/r', 'echo'), ('/d/{when:dt("%Y-%m-%d")}', 'echo'), ('/f/{x:float}', 'echo'),
     ('/fl/{x:flaky}', 'echo'), ('/static/{file}', 'static'),
+    # one numeric status code under different (equally legal) status lines; one exception
+    # hierarchy with multiple inheritance resolved against the shared handler table
+    ('/s/{k}', 'status'), ('/em/{k}', 'errmix'),
 ]
 
 UUIDS = ['11111111-1111-1111-1111-111111111111', '22222222-2222-2222-2222-222222222222',
@@ -90,7 +94,21 @@ def gen_plan(ch, deep=False):
     reqs = []
     conv_routes = [i for i in routes if ':' in TEMPLATES[i][0]]
     same_route = None
-    scenario = ch.draw(7, 'scenario')
+    scenario = ch.draw(8, 'scenario')
+    if scenario == 7:
+        # three requests on one route whose answers differ only in something the framework could
+        # be tempted to memoise per process / per app (status line by code, handler by class)
+        kind = ['status', 'errmix'][ch.draw(2, 'memo_kind')]
+        ki = [i for i, t in enumerate(TEMPLATES) if t[1] == kind][0]
+        if ki not in routes:
+            routes.append(ki)
+            routes.sort()
+        for k in range(3):
+            reqs.append({'route': ki, 'path': path_for(TEMPLATES[ki][0], ch.draw(3, 'variant')), 'method': 'GET',
+                         'tag': 'tag%d' % k, 'ctype': None, 'accept': ACCEPTS[0], 'query': 'q=%d&who=r%d' % (k, k),
+                         'body': None})
+        return {'routes': routes, 'n_mw': n_mw, 'reqs': reqs,
+                'independent_mw': bool(ch.draw(2, 'independent_mw')), 'caches_full': False}
     if scenario == 6:
         # three overlapping downloads of different static files
         si = [i for i, t in enumerate(TEMPLATES) if t[1] == 'static'][0]
@@ -246,6 +264,14 @@ class ErrB(falcon.HTTPError):
     pass
 
 
+class AppError(Exception):
+    pass
+
+
+class ThingMissing(AppError, falcon.HTTPNotFound):
+    pass
+
+
 HOT_FUNCS = ('_handle_exception', '_find_error_handler', '_compose_error_response', '_get_responder',
              '_compile_and_find', 'find', '_http_error_handler', '_resolve', 'resolve', 'get_media')
 CACHE_FILES = ('util/misc.py', 'util/mediatypes.py', 'media/handlers.py', 'asgi/request.py')
@@ -339,6 +365,14 @@ def build_app(plan, asgi, record, pause=None):
         if kind == 'media':
             resp.media = {'route': ridx, 'obs': obs}
             return
+        if kind == 'errmix':
+            v = sum(ord(c) for c in params.get('k', '')) % 3
+            if v == 0:
+                raise AppError('tag=%s' % (obs['tag'],))
+            raise ThingMissing(description='tag=%s q=%s' % (obs['tag'], obs['q']))
+        if kind == 'status':
+            v = sum(ord(c) for c in params.get('k', '')) % 3
+            resp.status = ['422 Validation Failed', 422, http.HTTPStatus(422)][v]
         resp.content_type = 'application/json'
         resp.text = json.dumps({'route': ridx, 'obs': obs}, sort_keys=True)
         resp.set_header('X-Route', str(ridx))
@@ -528,7 +562,8 @@ def run_threads(ctx, plan):
             continue
         for oid, msg in got[3]:
             ctx.violate(oid, msg)
-        if fault_fired and got[:3] != want[:3] and str(got[0]).startswith('500') and not excused[0]:
+        if fault_fired and (got[:3] != want[:3] or rec.get(r['tag']) is None) \
+                and str(got[0]).startswith('500') and not excused[0]:
             excused[0] = 1      # the one request that hit the injected converter failure may answer 500
             continue
         if got[:3] != want[:3]:
@@ -695,7 +730,8 @@ def run_tasks(ctx, plan):
             ctx.violate(oid, msg)
         if got[4] != 'done':
             ctx.violate('conc.tasks.response', 'request %d: response not finished (%s)' % (i, got[4]))
-        if fault_fired and got[:3] != want[:3] and got[0] == 500 and not excused[0]:
+        if fault_fired and (got[:3] != want[:3] or rec.get(r['tag']) is None) and got[0] == 500 \
+                and not excused[0]:
             excused[0] = 1
             continue
         if got[:3] != want[:3]:
